@@ -8,13 +8,15 @@ use crate::scenario::*;
 struct Min<'a> {
     oracle: &'a str,
     budget: usize,
+    deadline: std::time::Instant,
     best: Case,
     finding: Finding,
 }
 
 impl Min<'_> {
     fn fails(&mut self, c: &Case) -> Option<Finding> {
-        if self.budget == 0 {
+        if self.budget == 0 || std::time::Instant::now() > self.deadline {
+            self.budget = 0;
             return None;
         }
         self.budget -= 1;
@@ -112,6 +114,9 @@ pub fn minimize(case: &Case, finding: &Finding, budget: usize) -> (Case, Finding
     let mut m = Min {
         oracle: &finding.oracle,
         budget,
+        // wall-clock only bounds the effort spent on shrinking; the result is re-verified by
+        // replay in any case
+        deadline: std::time::Instant::now() + std::time::Duration::from_secs(30),
         best: case.clone(),
         finding: finding.clone(),
     };
@@ -138,8 +143,26 @@ pub fn minimize(case: &Case, finding: &Finding, budget: usize) -> (Case, Finding
         m.attempt(c);
     }
 
-    // 2. drop files
-    let mut ix = m.best.files.len();
+    // 2. drop files: first in blocks (halves, quarters, ...), then one at a time
+    let mut block = m.best.files.len() / 2;
+    while block >= 2 && m.budget > 0 {
+        let mut start = 0;
+        while start < m.best.files.len() && m.best.files.len() > 1 && m.budget > 0 {
+            let end = (start + block).min(m.best.files.len());
+            if end - start == m.best.files.len() {
+                break;
+            }
+            let mut c = m.best.clone();
+            for ix in (start..end).rev() {
+                c = drop_file(&c, ix);
+            }
+            if !m.attempt(c) {
+                start = end;
+            }
+        }
+        block /= 2;
+    }
+    let mut ix = if m.best.files.len() > 64 { 0 } else { m.best.files.len() };
     while ix > 0 && m.best.files.len() > 1 {
         ix -= 1;
         if ix < m.best.files.len() {
